@@ -81,6 +81,10 @@ pub struct World {
     /// (peer, reason) of every disconnect requested by the client
     pub disconnect_log: Vec<(PeerIndex, String)>,
     pub steps: u64,
+    /// handler invocations (received / notify) so far; survives restarts
+    pub events: u64,
+    /// C08 control: die right before (false) / after (true) the handler invocation with this number
+    pub boundary_crash: Option<(u64, bool)>,
     /// per peer: layout of the last honest SendLastStateProof + number of requested difficulties
     pub last_layouts: HashMap<PeerIndex, (server::ProofLayout, usize)>,
     /// every message delivered to the client (when `record_deliveries` is on), for history oracles
@@ -92,6 +96,11 @@ pub type Msg = (ProtocolId, PeerIndex, P2pBytes);
 
 impl World {
     pub fn new(chains: Vec<Chain>, cfg: Cfg) -> Self {
+        Self::new_opt(chains, cfg, true)
+    }
+
+    /// `boot = false`: the store directory exists but nothing was opened yet (C08 crashes the first start).
+    pub fn new_opt(chains: Vec<Chain>, cfg: Cfg, boot: bool) -> Self {
         let dir = tempfile::Builder::new().prefix("lcv").tempdir_in(crate::lcv::tmp_root()).unwrap();
         let now = chains[0].now;
         set_now(now);
@@ -108,11 +117,15 @@ impl World {
             disconnects_seen: 0,
             disconnect_log: vec![],
             steps: 0,
+            events: 0,
+            boundary_crash: None,
             last_layouts: HashMap::new(),
             record_deliveries: false,
             delivered: vec![],
         };
-        w.boot();
+        if boot {
+            w.boot();
+        }
         w
     }
 
@@ -262,6 +275,10 @@ impl World {
     /// Delivers one message from `peer` to the client on `proto`.
     pub fn deliver(&mut self, proto: SupportProtocols, peer: PeerIndex, data: P2pBytes) {
         self.steps += 1;
+        self.events += 1;
+        if self.boundary_crash == Some((self.events, false)) {
+            panic!("LCV-CRASH:boundary-before-handler");
+        }
         if self.record_deliveries {
             self.delivered.push((proto.protocol_id(), peer, data.clone()));
         }
@@ -275,10 +292,17 @@ impl World {
             SupportProtocols::RelayV2 | SupportProtocols::RelayV3 => futures::executor::block_on(c.relay.received(nc, peer, data)),
             _ => {}
         }
+        if self.boundary_crash == Some((self.events, true)) {
+            panic!("LCV-CRASH:boundary-after-handler");
+        }
         self.process_disconnect_requests();
     }
 
     pub fn tick(&mut self, proto: SupportProtocols, token: u64) {
+        self.events += 1;
+        if self.boundary_crash == Some((self.events, false)) {
+            panic!("LCV-CRASH:boundary-before-handler");
+        }
         let shared = Arc::clone(&self.shared);
         let c = self.cm();
         let nc = ctx(&shared, proto.clone());
@@ -292,6 +316,9 @@ impl World {
                 futures::executor::block_on(c.filter.notify(nc, token))
             }
             _ => {}
+        }
+        if self.boundary_crash == Some((self.events, true)) {
+            panic!("LCV-CRASH:boundary-after-handler");
         }
         self.process_disconnect_requests();
     }
